@@ -918,7 +918,7 @@ func c10Compare(c *Ctx, caseIdx int, class string, base, got *c10Out, cfg c10Cfg
 func c10Case(c *Ctx, i int, r *rand.Rand) {
 	deepMax := 260
 	if !c.Quick() && i%3 == 0 {
-		deepMax = 800
+		deepMax = 300 // nested templates multiply the depth; 800 exhausted the default call stack in the baseline (generator artefact)
 	}
 	var class string
 	var prog *c10Prog
@@ -1126,7 +1126,7 @@ func init() {
 		Case:        c10Case,
 		MinCounters: map[string]int64{"programs_run": 180, "configs_compared": 2000, "runs_with_main_stack_reallocated": 800, "runs_child_process_env": 15},
 		Assumptions: []string{
-			"stack-limit exhaustion is recognised by the VM's two fixed panic messages and accepted only when that limit was explicitly lowered; with default limits (100 MB / 74 KB) the workload (recursion depth <= 800, < 10k slots) must not exhaust anything",
+			"stack-limit exhaustion is recognised by the VM's two fixed panic messages and accepted only when that limit was explicitly lowered; with default limits (100 MB / 74 KB) the workload (recursion depth <= 300, < 10k slots) must not exhaust anything",
 			"configurations whose initial stack is smaller than (deepest frame + 2) / 0.3 slots are outside the compared grid (known finding K-C10-headroom: the VM reserves no per-function stack space)",
 			"task-queue sizes below the number of simultaneously outstanding promises are outside the compared grid (known finding K-C10-queue)",
 			"in-process runs set vm.INIT_VALUE_STACK_SIZE / MAX_VALUE_STACK_SIZE / CALL_STACK_SIZE with the arithmetic of the init functions; the env-var parsing itself is covered by the child-process runs only",
